@@ -82,6 +82,7 @@ Definition init_provider (s : state) (c : signer) (vb ipok : bool) (ip : N) (spa
   | None =>
     let price := st_price s in
     if price <? 0 then (s, Panic) else                    (* sdk.NewInt64Coin panics on a negative amount *)
+    if snd c then (s, Fail) else                          (* account.String() != msg.Creator: only the canonical spelling registers *)
     match send (st_bank s) (acct c) escrow price with     (* SendCoinsFromAccountToModule(account(creator), escrow) *)
     | None => (s, Fail)
     | Some b =>
